@@ -4,6 +4,9 @@
 tier="${1:-quick}"
 export VERIF_EVIDENCE_DIR=/tmp/verif-scratch-evidence
 exec 9>/tmp/repo.lock; flock 9
+# the checks run from a snapshot of /verif, so that /verif can be edited while the batch runs
+snap=/tmp/verif-snap; rm -rf $snap; mkdir -p $snap
+rsync -a --exclude .git --exclude .build --exclude evidence /verif/ $snap/
 out=/verif/seeded/RESULTS.tsv
 printf "seed\tcheck\ttier\texit\tfirst violation key\n" > $out
 for d in /verif/seeded/C*-m*; do
@@ -11,7 +14,7 @@ for d in /verif/seeded/C*-m*; do
   cd /repo || exit 9
   git diff --quiet || { echo "repo dirty"; exit 9; }
   git apply $d/patch.diff || { printf "%s\t%s\t%s\tpatch-does-not-apply\t\n" $id $prop $tier >> $out; continue; }
-  cd /verif && ./check $prop $tier > /tmp/seedall.log 2>&1; rc=$?
+  cd $snap && ./check $prop $tier > /tmp/seedall.log 2>&1; rc=$?
   key=$(grep -m1 '^violation ' /tmp/seedall.log | cut -d' ' -f2 | tr -d ':' | sed 's/^\(C[0-9]*\)/\1:/')
   printf "%s\t%s\t%s\t%s\t%s\n" $id $prop $tier $rc "$(grep -m1 '^violation ' /tmp/seedall.log | cut -d' ' -f2)" >> $out
   git -C /repo checkout -- .
@@ -21,8 +24,9 @@ printf "seed\tcheck\ttier\texit\tfirst violation key\n" > $cross
 while read id prop; do
   [ -z "$id" ] && continue
   cd /repo && git apply /verif/seeded/$id/patch.diff || continue
-  cd /verif && ./check $prop $tier > /tmp/seedall.log 2>&1; rc=$?
+  cd $snap && ./check $prop $tier > /tmp/seedall.log 2>&1; rc=$?
   printf "%s\t%s\t%s\t%s\t%s\n" $id $prop $tier $rc "$(grep -m1 '^violation ' /tmp/seedall.log | cut -d' ' -f2)" >> $cross
   git -C /repo checkout -- .
 done < /verif/seeded/cross.txt
+rm -rf $snap
 cat $out $cross
